@@ -94,7 +94,7 @@ CHECKS = {
     ),
     "C09": dict(
         text="Partial: decides (b) fixed point at every buffer phase and (c) the executed recurrence is the published one for k=3..9 incl. after restart. TLC checks XLHistory (the paper's table as integers: sum rule, fixed point; slot->age alignment, overwrite-oldest, window, newest-after-resume) exhaustively for k=3..9 with crash/resume at every step; two alignment mutants must be refuted. The real XL_BOMD/KSA_XL_BOMD one_step, _propagate_P and run_from_checkpoint are observed (one-hot decoding of the applied weights, slot written, slot resumed) for every k, 3m+2 steps and a restart at buffer phases; the traces are validated against XLHistory by TLC. Monitored: XL energy/forces = SCF ones at P = converged D; fixed point on real tensors.",
-        note="Not decided: linear stability over the response range, dt^2 scaling of the shadow energy, convergence to BO (numeric). c=0.95 delta mixing modelled as coded. History handling observed with a stub electronic structure. Monitored on the real code: XL/KSA energy and forces at P = converged D equal the SCF ones; the KSA kernel update at P != D solves the Newton equation it reports (achieved residual by finite differences = published Krylov error, per molecule of a batch, ranks 1-3; the code's convention J = 1/2 dD/dP - 1 is taken as given).",
+        note="Not decided: linear stability over the response range, dt^2 scaling of the shadow energy, convergence to BO (numeric). c=0.95 delta mixing modelled as coded. History handling observed with a stub electronic structure. Monitored on the real code: XL/KSA energy and forces at P = converged D equal the SCF ones; the KSA kernel update at P != D solves the Newton equation it reports (achieved residual by finite differences = published Krylov error, per molecule of a batch, ranks 1-3; the code's convention J = 1/2 dD/dP - 1 is taken as given); at fractional occupations the KSA forces equal minus the finite-difference gradient of the reported free energy (Etot + entropy term) to 1e-6.",
         tech="explicit TLA+ model (XLHistory) checked by TLC; traces of the real history buffer validated by TLC (XLHistoryTrace)",
         ref="DESIGN.md §4 C09",
     ),
